@@ -20,16 +20,17 @@ import (
 )
 
 type job struct {
-	ID     int      `json:"id"`
-	Kind   string   `json:"kind"` // "prog": a program of the model; "lisp": free-form concurrent forms (implementation-only checks)
-	Caps   []int    `json:"caps"`
-	NMutex int      `json:"nmutex"`
-	Cells  []string `json:"cells"`
-	Setup  []string `json:"setup"`
-	Runs   []string `json:"runs"`
-	Finals []string `json:"finals"`
-	Procs  int      `json:"procs"`
-	HardMS int      `json:"hard_ms"` // give up (hang) after this long
+	ID      int      `json:"id"`
+	Kind    string   `json:"kind"` // "prog": a program of the model; "lisp": free-form concurrent forms (implementation-only checks)
+	Caps    []int    `json:"caps"`
+	NMutex  int      `json:"nmutex"`
+	Cells   []string `json:"cells"`
+	Setup   []string `json:"setup"`
+	Runs    []string `json:"runs"`
+	Finals  []string `json:"finals"`
+	Procs   int      `json:"procs"`
+	HardMS  int      `json:"hard_ms"` // give up (hang) after this long
+	Results int      `json:"results"` // routines that report on `res` (default: one per entry of Runs)
 }
 
 type logEntry struct {
@@ -148,6 +149,9 @@ func runJob(j job) (r result) {
 	t0 := time.Now()
 	r.ID = j.ID
 	n := len(j.Runs)
+	if j.Results > 0 {
+		n = j.Results
+	}
 	r.Fin = make([]bool, n)
 	r.Logs = make([][]logEntry, n)
 	if j.Procs > 0 {
@@ -290,9 +294,21 @@ loop:
 func Worker(ctx *common.Ctx) {
 	defineBuiltins()
 	s := slip.NewScope()
+	// the printer keeps a global indentation buffer that it grows on demand without synchronisation (known
+	// finding C17-printer-spaces-race, which has its own cold-process witness); unless told otherwise the
+	// worker grows it once, sequentially, so that not every run that prints an error is flagged by it
+	warm := "nil"
+	if os.Getenv("VERIF_C17_COLD") == "" {
+		nest := "x"
+		for k := 0; k < 90; k++ {
+			nest = "(aaaa " + nest + ")"
+		}
+		warm = "(write-to-string '" + nest + " :pretty t :right-margin 400)"
+	}
 	for _, src := range []string{
 		"(defclass c17cell () ((v :initform 0)))",
 		"(defflavor c17fcell ((v 0)) () :gettable-instance-variables :settable-instance-variables)",
+		warm,
 	} {
 		if o := common.EvalIn(s, src); o.Err != "" {
 			fmt.Fprintln(os.Stderr, "worker setup failed:", src, o.Err, o.Msg)
